@@ -170,11 +170,15 @@ def sheetLinks (lookup : Text → Option Node) (path : Text) (hs : List Node) : 
 
 /-- reader/xlsx.rs for one sheet of the list.  `lookup name` stands for `arv.by_name(name)` followed by the XML reader: the
     root element of the part (`none` = no such part).  The sheet's part is the target of its relationship
-    (`sheetPart`: `join_paths`); without relationship or part the sheet stays empty.  Then worksheet.rs `read`: the
+    (`sheetPart`: `join_paths`, the LAST relationship with the sheet's id); without relationship the sheet stays empty; a
+    relationship with the sheet's id — the last or an earlier one — whose part is missing is a panic (`unwrap`).  Then worksheet.rs `read`: the
     `<sheetData>` loop, `<mergeCells>`, `<hyperlinks>` through the relationships part of the sheet (`relsPartOf`).
     `none` = panic. -/
 def readSheetB (T : Tr) (lookup : Text → Option Node) (made : List StyleR) (sst : List (Option Text)) (wbRels : List RelR)
     (s : SheetR) : Option SheetB :=
+  -- `raw_worksheet.read(&mut arv, rel_target)` for EVERY relationship with the sheet's id: `by_name(path).unwrap()`
+  if (wbRels.filter (·.id = s.rid)).any (fun r => (lookup (joinPaths "xl".toList (stripXl r.target))).isNone) then none
+  else
   match (sheetPart wbRels s).bind (fun p => (lookup p).map fun r => (p, r)) with
   | none => some ⟨s, [], [], [], []⟩
   | some (path, root) =>
